@@ -676,6 +676,10 @@ def _instancecheck_iterable(iterable: Iterable, type_args: Tuple, type_vars: Dic
         False
     """
     type_ = type_args[0]
+
+    if isinstance(iterable, collections.abc.Iterator):
+        return True  # checking the elements would consume the iterator before the function sees it
+
     return all(_is_instance(val, type_, type_vars=type_vars, context=context) for val in iterable)
 
 
